@@ -39,6 +39,7 @@ def check(c: Check):
     clause_f(c)
     clause_g(c)
     clause_h(c)
+    clause_i(c)
     from .common import sweep_records
     sweep_records(c, 'C07-rec', ['exactly_lib.section_document', 'exactly_lib.util.line_source'], floor=8)
 
@@ -483,3 +484,41 @@ def _is_unmodified_text(v) -> bool:
             and not r.origin[2]:
         return True
     return False
+
+
+# ---------------------------------------------------------------- i
+def clause_i(c: Check):
+    """cycles through the root: the document that parsing starts with is itself recorded as visited - the list of
+    visited paths handed to the parser by `DocumentParser.parse_source` holds the resolved path of the source file
+    (else a cycle that leads back to the root file is only noticed one round later, with a wrong chain)"""
+    ix, fo = c.ix, c.fo
+    f = ix.func('exactly_lib.section_document.document_parser:DocumentParser.parse_source')
+    pn = f.positional_params()[1].arg
+
+    class H(Hooks):
+        def inline(self, fd, st):
+            return False
+
+    ok = False
+    n = 0
+    for p in util.func_paths(ix, fo, f, H()):
+        for e in p.calls():
+            if isinstance(e.node.func, ast.Attribute) and e.node.func.attr == '_parse':
+                n += 1
+                names = ['file_reference_relativity_root_dir', 'file_location_info', 'visited_paths', 'source']
+                given = dict(zip(names, e.data['args']))
+                given.update(e.data['kwargs'])
+                v = given.get('visited_paths')
+                items = v.items if isinstance(v, ListVal) else None
+                good = False
+                if items is not None and len(items) == 1:
+                    o = items[0].origin if isinstance(items[0], Sym) else None
+                    if o and o[0] == 'call' and isinstance(o[4].func, ast.Attribute) and o[4].func.attr == 'resolve' and o[5] is not None:
+                        cv = p.trace[o[5]].data.get('callee_val')
+                        base = util.attr_chain(cv)[0] if cv is not None else None
+                        r = util.root_sym(base) if base is not None else None
+                        good = isinstance(r, Sym) and r.origin and r.origin[:2] == ('param', pn)
+                ok = good if n == 1 else (ok and good)
+    c.expect(ok and n >= 1, 'C07-i', 'parse_source/root-recorded-as-visited',
+             'parsing a source file does not start with the resolved path of that file as the only visited path: a cycle '
+             'of inclusions through the root file is not detected where it closes', f.loc())
